@@ -814,7 +814,7 @@ func c06LiveStreams(u *vfUnit) {
 		sc := vfSrvCfg{Kind: kind, Alloc: u.Index%2 == 1}
 		if kind == vfRS {
 			store = vfNewStore()
-			sc.H = store.Handlers(vfHandlerOpt{OpenFile: u.Index%4 < 2, CmdAll: true, ListAll: true})
+			sc.H = store.Handlers(vfHandlerOpt{OpenFile: u.Index%4 < 2, CmdAll: true, ListAll: u.Index%8 < 4}) // half of the units: handlers without the optional Lstat/RealPath/Readlink interfaces (legacy fall-backs)
 		} else {
 			root = filepath.Join(u.TempDir(), "live")
 			os.MkdirAll(root, 0o755)
